@@ -606,10 +606,12 @@ def main():
     if a.replay:
         replay(a.replay)
     if a.build_only is not None:
-        fl = a.build_only or ["san"]
-        for f in fl:
-            for t in ("seq_driver",):
-                print(build(f, t))
+        # everything the quick tier needs (thorough adds clang-san, o1, tsan2 on first use)
+        todo = [("san", "seq_driver"), ("san", "conc_driver"), ("asan", "seq_driver"), ("opt", "conc_driver"), ("tsan0", "race_driver")]
+        if a.build_only and a.build_only != ["san"]:
+            todo = [(f, t) for f in a.build_only for t in TARGETS]
+        for f, t in todo:
+            print(build(f, t))
         sys.exit(0)
     if a.property not in PROPS:
         harness_fail("unknown property %s" % a.property)
